@@ -377,6 +377,40 @@ func checkErrorDiscipline(c *an.Ctx, id string, exceptions []errFlowException, f
 						excepted = true
 					}
 				}
+				if !excepted && badUse == nil {
+					// a failure that was classified (errors.Is/As) and tolerated still leaves the value
+					// results zero: a method invoked on one of them on such a path dereferences nothing
+					direct := map[ssa.Value]bool{}
+					if call.Referrers() != nil {
+						for _, ref := range *call.Referrers() {
+							if ex, isEx := ref.(*ssa.Extract); isEx && ex.Index != idx && vals[ex] {
+								direct[ex] = true
+							}
+						}
+					}
+					seenB := map[*ssa.BasicBlock]bool{}
+					var sweep func(b *ssa.BasicBlock, start int)
+					sweep = func(b *ssa.BasicBlock, start int) {
+						for _, ins := range b.Instrs[start:] {
+							if x, isCall := ins.(*ssa.Call); isCall && x.Call.IsInvoke() && direct[x.Call.Value] && x.Call.Method.Name() != "IsZero" && badUse == nil {
+								if !pr.AtRefined(b).Has(an.EQ(errTerm, "nil")) && !nonZeroByFailedCallee(c, fn, pr.AtRefined(b), x.Call.Value) {
+									badUse = ins
+								}
+							}
+						}
+						for _, s := range b.Succs {
+							if !seenB[s] && pr.Reachable(s) && !pr.Removed(b, s) {
+								seenB[s] = true
+								sweep(s, 0)
+							}
+						}
+					}
+					for i, ins := range call.Block().Instrs {
+						if ins == ssa.Instruction(call) {
+							sweep(call.Block(), i+1)
+						}
+					}
+				}
 				if !excepted {
 					if badUse != nil {
 						c.Fail(id, ukey, urule, fn, badUse, "used by `"+badUse.String()+"` at "+c.P.InstrPos(badUse)+" although "+an.Stable(errTerm)+" may be non-nil", pr.AtRefined(badUse.Block()))
